@@ -313,6 +313,12 @@ class Target:
             elif c[0] == "encap":
                 reply = reply[:8] + p32(c[1]) + reply[12:24]
                 reply = reply[:2] + p16(0) + reply[4:]
+            elif c[0] == "trunc" and 24 <= c[1] < len(reply):      # a well-framed reply whose payload stops early: lengths fixed up
+                ds = 44 if reply[0] == 0x70 else 40               # start of the data item's content
+                reply = reply[:c[1]]
+                reply = reply[:2] + p16(len(reply) - 24) + reply[4:]
+                if len(reply) >= ds:
+                    reply = reply[:ds - 2] + p16(len(reply) - ds) + reply[ds:]
         return reply
 
     def cpf_data(self, body, want, connected=False):
